@@ -12,7 +12,7 @@ from ..gen import mesh as G
 
 PID = "C19"
 TITLE = "Samplers stay on their domain; Bezier evaluation matches Bernstein form"
-LEAN_MODULES = ["Mouette.Props.C19", "Mouette.Props.C19Source", "Mouette.Props.C19Ext", "Mouette.Props.C19Hist"]
+LEAN_MODULES = ["Mouette.Props.C19", "Mouette.Props.C19Source", "Mouette.Props.C19Ext", "Mouette.Props.C19Hist", "Mouette.Props.C19Fn"]
 REQUIRED_THEOREMS = [
     # sampling
     "box_uniform_contained", "box_grid_contained", "box_grid_count", "sphere_on_sphere", "ball_in_ball",
@@ -45,6 +45,13 @@ REQUIRED_THEOREMS = [
     "evaluation_keeps_control_net", "evaluation_history_pure", "source_evaluation_history_pure",
     "evaluation_layout_independent", "inplace_update_refuted", "evaluation_representation_independent",
     "patch_representation_independent", "sampler_history_pure",
+    # round 4 — Props/C19Fn: the five samplers + AABB accessors translated as WHOLE functions (Generated/C19Fn*.lean), bridges
+    # generated = hand model, and the clauses on the generated functions for ANY random stream; grid resolution without ties
+    "bridge_AABB", "bridge_sample_sphere", "bridge_sample_ball", "bridge_boxAffine", "bridge_sample_polyline",
+    "bridge_sample_surface", "bridge_sample_AABB", "bridge_defaults",
+    "sphere_fn_on_sphere", "ball_fn_in_ball", "box_fn_returns_iff", "box_fn_contained", "polyline_fn_on_edges",
+    "surface_fn_in_faces", "grid_no_halfway", "grid_resolution_unique", "grid_rounding_error_harmless",
+    "grid_rounding_unique_int", "bridge_curveEvaluate", "bridge_orders", "curve_evaluate_source",
 ]
 TRUSTED = [
     "Lean 4.33.0 kernel; axioms ⊆ {propext, Classical.choice, Quot.sound}",
@@ -66,6 +73,13 @@ TRUSTED = [
     "of the draws (counted) and up to float rounding on the rest; float rounding itself is not modelled (tolerance 1e-9*scale+1e-12)",
     "numpy vector arithmetic is coordinatewise (the Bezier model evaluates each coordinate separately)",
     "the ast translator of vlib/props/c19.py (symbolic evaluation of the straight-line numpy statements)",
+    "round 4 — whole-function translation (vlib/gen/c19_fn_translate.py -> Generated/C19Fn*.lean): trusted are the typed ast compiler and "
+    "Model/SamplingSource.lean, i.e. the MEANING given to each recognised operation (numpy broadcasting of (n,d)/(n,1)/(d,) operands as "
+    "map/zipWith, `for i,x in enumerate` + `buf[i,:] = ..` as a fold of `set`, PointCloud() / vertices += / attribute 'normals', "
+    "from_arrays = zero padding to 3 columns, check_argument = membership test, out-of-range reads totalised); random draws (normal "
+    "triples, uniforms, choice) and norm/cbrt/sqrt/round(n^(1/d)) are INJECTED arbitrary functions, so the theorems hold for any "
+    "generator; that numpy.random.choice(size=n) returns n indices is a hypothesis of the polyline/surface bridges; float rounding of "
+    "n**(1/d) is not modelled: grid_no_halfway / grid_rounding_error_harmless state when it cannot change round()",
 ]
 ASSUMPTIONS = ["agreement model/implementation is established on the cases explored in this run only",
                "grid count: res = round(n^(1/d)) is taken as the meaning of 'nearest perfect power' (root nearest); the oracle's integer "
@@ -937,8 +951,13 @@ def _oracle_call(case, r):
         bad_mode = _mode(case) not in ("uniform", "grid")
         must_fail = bad_mode or empty or (d > 3 and case.get("pc"))
         if must_fail:
-            if not r["err"]:
-                out.append(_finding("C19/box/accepts-invalid", "sample_AABB accepted an empty box / unknown mode / point cloud of dimension > 3", case.get("mode")))
+            # round 4 (soundness): the STATEMENT only says that returned points lie within the box.  Refusing an unknown mode, a flat
+            # box or a point cloud of dimension > 3 is documented behaviour, tied by the translated guards (bridge_sample_AABB,
+            # box_fn_returns_iff) and by the correspondence, but an implementation that accepts them does not contradict the
+            # statement.  What does contradict it: points returned for a box with maxi < mini in some coordinate (no point is inside).
+            inverted = any(a > b for a, b in zip(lo, hi))
+            if not r["err"] and inverted and len(r["pts"]) > 0:
+                out.append(_finding("C19/box/accepts-invalid", "sample_AABB returned points for a box with maxi < mini in some coordinate (no point can be inside)", case.get("mode")))
             return out
     if r["err"]:
         tag = ""
@@ -1706,7 +1725,58 @@ def shrink(case, still):
 # ------------------------------------------------------------------------------------------------
 # translated fragments
 # ------------------------------------------------------------------------------------------------
-from ..gen.c19_translate import translate  # noqa: E402
+from ..gen.c19_translate import translate as _translate_fragments  # noqa: E402
+from ..gen.c19_fn_translate import translate as _translate_functions  # noqa: E402
+
+
+def translate():
+    """round 1-3 fragments (index expressions, guards, per-coordinate maps, de_casteljau loop nest) + round 4 whole functions"""
+    return _translate_fragments() + _translate_functions()
+
+
+# every function / method defined in the anchor files (mouette/sampling.py, mouette/splines/bezier.py, mouette/geometry/aabb.py):
+#   translated  = a Generated/ definition is produced from that body on every run AND a bridge theorem uses it
+#   modelled    = hand model only, tied by the recorded-stream correspondence / oracle
+_C12 = "out-of-scope: box algebra (intersection/union/containment/projection/distance/padding/constructors) is property C12, not used by the samplers"
+SOURCE_MAP = {
+    "mouette/sampling.py::sample_sphere": "translated",        # whole body -> C19FnSphere.sample_sphere; bridge_sample_sphere (+ C19Sphere.sphereCoord)
+    "mouette/sampling.py::sample_ball": "translated",          # whole body -> C19FnBall.sample_ball; bridge_sample_ball (+ C19Ball.ballCoord)
+    "mouette/sampling.py::sample_AABB": "translated",          # whole body -> C19FnBox.sample_AABB; bridge_sample_AABB (+ C19Box)
+    "mouette/sampling.py::sample_polyline": "translated",      # whole body -> C19FnPoly.sample_polyline; bridge_sample_polyline (+ C19Seg)
+    "mouette/sampling.py::sample_surface": "translated",       # whole body -> C19FnSurf.sample_surface; bridge_sample_surface (+ C19Tri)
+    "mouette/splines/bezier.py::de_casteljau": "translated",   # guard + loop nest read imperatively -> C19DC; source_deCasteljau_eq_model
+    "mouette/splines/bezier.py::BezierCurve.__init__": "modelled",   # Vec(x) per control point: representation cases + chist histories (oracle / correspondence)
+    "mouette/splines/bezier.py::BezierCurve.order": "translated",      # C19FnCurve.curveOrder; bridge_orders, curve_evaluate_source (degree of the Bernstein form)
+    "mouette/splines/bezier.py::BezierCurve.evaluate": "translated",   # delegation de_casteljau(self.pts, t) -> C19FnCurve.curveEvaluate; bridge_curveEvaluate
+    "mouette/splines/bezier.py::BezierCurve.as_polyline": "translated",   # edge loop bound + pair + linspace default -> C19Poly; bridge_polyEdge (vertex loop: oracle)
+    "mouette/splines/bezier.py::BezierPatch.__init__": "modelled",
+    "mouette/splines/bezier.py::BezierPatch.order": "translated",      # C19FnCurve.patchOrder; bridge_orders
+    "mouette/splines/bezier.py::BezierPatch._evaluate_row": "translated",   # C19Patch.evaluateRow; bridge_evaluateRow
+    "mouette/splines/bezier.py::BezierPatch.evaluate": "translated",        # C19Patch.evaluate; bridge_patchEvaluate
+    "mouette/splines/bezier.py::BezierPatch.as_surface": "translated",      # loop bounds, quad, vertex parameters -> C19Surf/C19Patch; bridge_surfQuad, bridge_surfRanges, bridge_surfVert
+    "mouette/geometry/aabb.py::AABB.__init__": "translated",     # which attribute holds which corner (copy of the caller's data): C19FnAABB, bridge_AABB
+    "mouette/geometry/aabb.py::AABB.dim": "translated",
+    "mouette/geometry/aabb.py::AABB.mini": "translated",
+    "mouette/geometry/aabb.py::AABB.maxi": "translated",
+    "mouette/geometry/aabb.py::AABB.span": "translated",
+    "mouette/geometry/aabb.py::AABB.center": "translated",
+    "mouette/geometry/aabb.py::AABB.is_empty": "translated",
+    "mouette/geometry/aabb.py::AABB.IncompatibleDimensionError.__init__": _C12,
+    "mouette/geometry/aabb.py::AABB.__repr__": "out-of-scope: text rendering, no clause of the statement",
+    "mouette/geometry/aabb.py::AABB.unit_cube": _C12,
+    "mouette/geometry/aabb.py::AABB.infinite": _C12,
+    "mouette/geometry/aabb.py::AABB.of_points": _C12,
+    "mouette/geometry/aabb.py::AABB.of_mesh": _C12,
+    "mouette/geometry/aabb.py::AABB.intersection": _C12,
+    "mouette/geometry/aabb.py::AABB.__and__": _C12,
+    "mouette/geometry/aabb.py::AABB.do_intersect": _C12,
+    "mouette/geometry/aabb.py::AABB.union": _C12,
+    "mouette/geometry/aabb.py::AABB.__or__": _C12,
+    "mouette/geometry/aabb.py::AABB.pad": _C12,
+    "mouette/geometry/aabb.py::AABB.contains_point": _C12,
+    "mouette/geometry/aabb.py::AABB.project": _C12,
+    "mouette/geometry/aabb.py::AABB.distance": _C12,
+}
 
 
 MANIFEST = {
@@ -1719,8 +1789,8 @@ MANIFEST = {
                    "interpolates end control points, has convex-hull coefficients on [0,1], rejects parameters outside [0,1]; as_surface/as_polyline "
                    "indices are in range, injective and enumerate the loop nest for ALL (n1,n2). Index expressions, range bounds, guards, update "
                    "expressions, probability vectors and the barycentric/affine maps of sampling.py and bezier.py are re-extracted from the source "
-                   "with Python ast on every run (9 sites, bridge lemmas; the de_casteljau loop nest read imperatively is proved equal to the model); "
-                   "the point-cloud/normals options are model functions with list-level theorems; the grid resolution test of the oracle is proved "
+                   "with Python ast on every run (16 sites, bridge lemmas; the de_casteljau loop nest read imperatively is proved equal to the model); "
+                   "round 4: the five samplers and the AABB accessors they call are translated as WHOLE functions (statement order, guards, mode/option dispatch, enumerate loop with row stores, defaults) and proved EQUAL to the hand models (bridge_sample_*), so count / container / containment / normals clauses hold on what the source says for ANY random stream; the grid resolution has no ties (grid_no_halfway, grid_resolution_unique); the point-cloud/normals options are model functions with list-level theorems; the grid resolution test of the oracle is proved "
                    "equivalent to 'nearest integer to n^(1/d)'. The models are "
                    "tied to the code by a recorded-random-stream correspondence and a direct oracle (exact Fractions)."),
     "level_note": ("Trusted: Lean kernel + propext/Classical.choice/Quot.sound; hand-written models (checked against the code on the cases of each run "
